@@ -101,8 +101,39 @@ class Ctx:
         if ok is True:
             return self.ob(rule, construct, u(derived_expr), exp, True, detail)
         if ok is False:
+            # a specified name that no longer occurs ANYWHERE in the package was renamed (a refactor), not substituted:
+            # the rule's spelling is stale, which is no evidence about the code
+            from .exprdiff import best_substitutions
+
+            subs = best_substitutions(derived_expr, accepted) or []
+            names = self._package_names()
+            # only ATTRIBUTE tokens ('.name'): operator tokens ('Lt') and constants are never "renamed"
+            stale = [spec for _p, _got, spec in subs if isinstance(spec, str) and spec.startswith(".") and spec[1:] not in names and spec[1:].isidentifier()]
+            if subs and len(stale) == len(subs):
+                return self.ob(rule, construct, u(derived_expr), exp, None, f"the specified name(s) {sorted(set(stale))} no longer occur in the package (renamed): spelling rule not applicable")
             return self.ob(rule, construct, u(derived_expr), exp, False, (detail + " -- " if detail else "") + why)
         return self.ob(rule, construct, u(derived_expr), exp, None, why)
+
+    def _package_names(self):
+        """every identifier (def / class / attribute / name) that occurs in the analysed package"""
+        if getattr(self, "_names_cache", None) is None:
+            import ast as _ast
+
+            names = set()
+            for mod in self.repo.modules.values():
+                for n in _ast.walk(mod.tree):
+                    if isinstance(n, _ast.Attribute):
+                        names.add(n.attr)
+                    elif isinstance(n, _ast.Name):
+                        names.add(n.id)
+                    elif isinstance(n, (_ast.FunctionDef, _ast.ClassDef)):
+                        names.add(n.name)
+                    elif isinstance(n, _ast.arg):
+                        names.add(n.arg)
+                    elif isinstance(n, _ast.keyword) and n.arg:
+                        names.add(n.arg)
+            self._names_cache = names
+        return self._names_cache
 
     def count(self, what: str, n: int = 1, minimum: Optional[int] = None):
         self.counts[what] = self.counts.get(what, 0) + n
